@@ -3,6 +3,8 @@ CONSTANTS
   Repaired = TRUE
   MaxStyles = 3
   UseAligns = TRUE
+  RComps <- Components
+  RIOs <- IOsAll
   Depth = 3
   OwnFields <- MCOwnAll
   BorderFields <- MCBorderAll
